@@ -445,6 +445,10 @@ func (g *gstate) apply(cfg *ipa.IPAConfig, o *gop, e ev, rnd *prg) {
 		before := elemListV(heap)
 		e["ptrs"] = idx
 		e["heap_before"] = before
+		var g tailGuard
+		var psent banderwagon.Element
+		ptrs = guardSlice(&g, ptrs, &psent)
+		defer func() { e["tails_unchanged"] = g.ok() }()
 		switch o.Op {
 		case "Bnorm":
 			err := banderwagon.BatchNormalize(ptrs)
